@@ -706,6 +706,12 @@ func loadAllContracts(repo, verif string, pkgDirs map[string]string) (*Contracts
 		id := ext.Options["$id"]
 		base := cs.Funcs[id]
 		if base == nil {
+			// an extension of a catalogue (trusted / interface) contract from a package file
+			if k := strings.Index(id, "::"); k >= 0 {
+				base = cs.Funcs[id[k:]]
+			}
+		}
+		if base == nil {
 			return nil, fmt.Errorf("%s:%d: extend func %s: no such contract", ext.File, ext.Line, id)
 		}
 		base.Requires = append(base.Requires, ext.Requires...)
